@@ -161,11 +161,19 @@ Print Assumptions C12_table_range.
 Theorem C12_table_meta_range : forall ty t x, is_meta_type ty = true -> no_sep t -> wf_ekey x ->
   (exists lo hi, get_table_meta_range ty t [] None = Ok (lo, hi) /\
      (in_range lo hi (encode_ekey x) = true <-> exists rk, x = KMeta ty t rk)).
-Proof.
-  intros ty t x Hty Ht Hx. eexists _, _. split; [now apply get_table_meta_range_whole|].
-  now apply meta_table_range_iff.
-Qed.
+Proof. exact table_meta_range_whole. Qed.
 Print Assumptions C12_table_meta_range.
+
+(* whole-table delete (DeleteTableRange -> getTableDataRange(dt, table, nil, nil)): the engine ranges of one
+   data type hold exactly the keys of that type and table (zset: member keys and score-index keys) *)
+Theorem C12_whole_table_data_range : forall dt t x,
+  dt = kv_type \/ dt = hash_type \/ dt = set_type \/ dt = zset_type \/ dt = list_type ->
+  no_sep t -> wf_ekey x -> ekey_key_nonempty x ->
+  exists rs, get_table_data_range dt t [] None = Ok rs /\
+    (in_ranges rs (encode_ekey x) = true <->
+     (ekey_type x = dt \/ (dt = zset_type /\ ekey_type x = zscore_type)) /\ ekey_table x = t).
+Proof. exact whole_table_data_range. Qed.
+Print Assumptions C12_whole_table_data_range.
 
 (* stop keys are the start keys with the last byte (the separator 0x3A) + 1: no overflow *)
 Theorem C12_table_end_no_overflow : forall dt t, exists q,
@@ -179,6 +187,96 @@ Theorem C12_coll_stop_no_overflow : forall dt t k,
   coll_stop_key dt t k = coll_base dt t k ++ [coll_start_sep + 1] /\ coll_start_sep + 1 < 256.
 Proof. exact coll_stop_spec. Qed.
 Print Assumptions C12_coll_stop_no_overflow.
+
+(* ---------- the guards are the ones the code provides, and they are necessary ---------- *)
+
+(* extractTableFromRedisKey yields a ':'-free table and is inverted by packRedisKey *)
+Theorem C12_extract_table_guard : forall raw t k, extract_table raw = Ok (t, k) -> raw = pack_redis_key t k /\ no_sep t.
+Proof. exact extract_table_no_sep. Qed.
+Print Assumptions C12_extract_table_guard.
+
+Theorem C12_extract_table_pack : forall t k, no_sep t -> extract_table (pack_redis_key t k) = Ok (t, k).
+Proof. exact extract_table_pack. Qed.
+Print Assumptions C12_extract_table_pack.
+
+(* convertRedisKeyToDBKVKey accepts exactly well-formed KV keys within the size limit *)
+Theorem C12_kv_key_guard : forall raw t dbk, convert_redis_key_to_db_kv_key raw = Ok (t, dbk) ->
+  exists rk, raw = pack_redis_key t rk /\ no_sep t /\ t <> [] /\ dbk = encode_ekey (KKV t rk) /\
+             N.of_nat (length raw) <= max_key_size.
+Proof. exact convert_kv_key_spec. Qed.
+Print Assumptions C12_kv_key_guard.
+
+(* the u16 guard follows from common.CheckKey: raw and versioned collection keys fit the length field *)
+Theorem C12_verkey_fits_u16 : forall ver rk, N.of_nat (length rk) <= max_key_size -> len16 (encode_ver_key ver rk).
+Proof. exact verkey_len16. Qed.
+Print Assumptions C12_verkey_fits_u16.
+Theorem C12_rawkey_fits_u16 : forall rk, N.of_nat (length rk) <= max_key_size -> len16 rk.
+Proof. exact rawkey_len16. Qed.
+Print Assumptions C12_rawkey_fits_u16.
+
+(* without the ':' guard KV keys collide; without the length guard collection keys collide *)
+Theorem C12_injective_without_table_guard_refuted :
+  exists x y, x <> y /\ encode_ekey x = encode_ekey y /\ wf_ekey x /\ ~ wf_ekey y.
+Proof. eexists _, _. exact kv_without_table_guard_collides. Qed.
+Print Assumptions C12_injective_without_table_guard_refuted.
+
+Theorem C12_injective_without_len_guard_refuted :
+  exists x y, x <> y /\ encode_ekey x = encode_ekey y /\ wf_ekey y /\ ~ wf_ekey x.
+Proof. exact coll_without_len_guard_collides. Qed.
+Print Assumptions C12_injective_without_len_guard_refuted.
+
+(* ---------- key decoders invert the encoders ---------- *)
+
+Theorem C12_decode_table_prefix : forall dt t r, dt <> kv_type -> len16 t ->
+  decode_table_prefix (table_prefix dt t ++ r) dt = Ok (t, r).
+Proof. exact decode_table_prefix_encode. Qed.
+Print Assumptions C12_decode_table_prefix.
+
+Theorem C12_decode_coll_key : forall dt t k s, is_coll_type dt = true -> len16 t -> len16 k ->
+  decode_coll_sub_key (coll_key dt t k s) = Ok (dt, t, k, s).
+Proof. exact decode_coll_sub_key_encode. Qed.
+Print Assumptions C12_decode_coll_key.
+
+Theorem C12_decode_list_key : forall t k seq, len16 t -> len16 k -> int64_ok seq ->
+  l_decode_list_key (l_encode_list_key t k seq) = Ok (t, k, seq).
+Proof. exact l_decode_list_key_encode. Qed.
+Print Assumptions C12_decode_list_key.
+
+Theorem C12_decode_zscore_key : forall t k m sc, len16 t -> float_ok sc ->
+  z_decode_score_key (z_encode_score_key false false t k m sc) = Ok (t, k, m, float_norm sc).
+Proof. exact z_decode_score_key_encode. Qed.
+Print Assumptions C12_decode_zscore_key.
+
+Theorem C12_decode_bitmap_key : forall t k i, len16 t -> int64_ok i ->
+  decode_bitmap_key (encode_bitmap_key t k i) = Ok (t, k, i).
+Proof. exact decode_bitmap_key_encode. Qed.
+Print Assumptions C12_decode_bitmap_key.
+
+Theorem C12_decode_json_key : forall t k, len16 t -> decode_json_key (encode_json_key t k) = Ok (t, k).
+Proof. exact decode_json_key_encode. Qed.
+Print Assumptions C12_decode_json_key.
+
+(* the versioned key memcmp(key, ':', version, ':') round-trips for every key and int64 version *)
+Theorem C12_decode_ver_key : forall ver k, int64_ok ver -> decode_ver_key (encode_ver_key ver k) = Ok (k, ver).
+Proof. exact decode_ver_key_encode. Qed.
+Print Assumptions C12_decode_ver_key.
+
+Theorem C12_decode_kv_key : forall k, decode_kv_key (encode_kv_key k) = Ok k.
+Proof. exact decode_kv_key_encode. Qed.
+Print Assumptions C12_decode_kv_key.
+
+Theorem C12_decode_size_key : forall ty k, decode_size_key ty (size_key ty k) = Ok k.
+Proof. exact decode_size_key_encode. Qed.
+Print Assumptions C12_decode_size_key.
+
+Theorem C12_decode_exp_time_key : forall dt k w, int64_ok w ->
+  exp_decode_time_key (exp_encode_time_key dt k w) = Ok (dt, k, w).
+Proof. exact exp_decode_time_key_encode. Qed.
+Print Assumptions C12_decode_exp_time_key.
+
+Theorem C12_decode_exp_meta_key : forall dt k, exp_decode_meta_key (exp_encode_meta_key dt k) = Ok (dt, k).
+Proof. exact exp_decode_meta_key_encode. Qed.
+Print Assumptions C12_decode_exp_meta_key.
 
 (* ---------- non-vacuity ---------- *)
 Example C12_ex_bytes : encode_bytes [1; 2; 3] = [1; 2; 3; 0; 0; 0; 0; 0; 250] /\
